@@ -64,7 +64,8 @@ Lemma c01_wild_nofail cfg r0 m h :
   (exists S', apply_all (ri r0) [] (all_events t) = Some S') /\
   c01_discipline_b m t = true /\ c01_error_b (c_fail_at cfg) 0 t = true /\
   (lib_mono_b cfg (fs_init m) h = true -> c01_refeed_b [] h t = true) /\
-  ((forall x, In x h -> c_first cfg < bnum x) -> lib_mono_b cfg (fs_init m) h = true).
+  ((forall x, In x h -> c_first cfg < bnum x) -> lib_mono_b cfg (fs_init m) h = true) /\
+  ((forall x, In x h -> c_first cfg <= bnum x) -> coh0 h r0 -> lib_mono_b cfg (fs_init m) h = true).
 Proof.
   intros Hnofail Hm Hnew Hundo Hwf Hr0.
   exact (wild_lib_run h r0 cfg Hnofail Hnew Hundo (bridge_id h Hwf) (bridge_uniq h Hwf) (bridge_up h Hwf) Hr0
@@ -93,7 +94,7 @@ Lemma c01_wild_mono_proved : c01_wild_mono_statement.
 Proof.
   intros cfg r0 m h Hm Hnew Hundo Hwf Hr0 Hmono. rewrite cfg_nofail_eq in Hmono.
   destruct (c_fail_at cfg) as [k|] eqn:Hf.
-  - destruct (c01_wild_nofail (nofail cfg) r0 m h eq_refl Hm Hnew Hundo Hwf Hr0) as (Hlen & Hok & Happ & _ & _ & Hre & _).
+  - destruct (c01_wild_nofail (nofail cfg) r0 m h eq_refl Hm Hnew Hundo Hwf Hr0) as (Hlen & Hok & Happ & _ & _ & Hre & _ & _).
     destruct (run_fail_c01 cfg k Hf (ri r0) h (fs_init m) [] []) as ((S2 & Happ2) & Hre2 & Herr2 & Hres2).
     + rewrite (rooted_ncalls r0 m Hm). lia.
     + exact Hok.
@@ -104,7 +105,7 @@ Proof.
       * exact Hre2.
       * rewrite Hf. rewrite (rooted_ncalls r0 m Hm) in Herr2. exact Herr2.
   - assert (Ec : nofail cfg = cfg) by (destruct cfg; cbn in Hf; subst; reflexivity). rewrite Ec in Hmono.
-    destruct (c01_wild_nofail cfg r0 m h Hf Hm Hnew Hundo Hwf Hr0) as (Hlen & Hok & _ & Hd & He & Hre & _).
+    destruct (c01_wild_nofail cfg r0 m h Hf Hm Hnew Hundo Hwf Hr0) as (Hlen & Hok & _ & Hd & He & Hre & _ & _).
     unfold c01_statement. split; [exact Hd|]. split; [exact (Hre Hmono) | exact He].
 Qed.
 
@@ -160,7 +161,8 @@ Lemma c01_wild_disc_nofail cfg h :
   length t = length h /\ Forall (fun x => snd x = ROk) t /\
   disc_ok t /\ c01_discipline_b LNone t = true /\ c01_error_b (c_fail_at cfg) 0 t = true /\
   (lib_mono_b cfg (fs_init LNone) h = true -> c01_refeed_b [] h t = true) /\
-  ((forall x, In x h -> c_first cfg < bnum x) -> lib_mono_b cfg (fs_init LNone) h = true).
+  ((forall x, In x h -> c_first cfg < bnum x) -> lib_mono_b cfg (fs_init LNone) h = true) /\
+  ((forall x, In x h -> c_first cfg <= bnum x) -> lib_mono_b cfg (fs_init LNone) h = true).
 Proof.
   intros Hnofail Hhold Hincl Hnew Hundo Hwf.
   exact (wild_disc_run h cfg Hnofail Hnew Hundo Hhold Hincl (bridge_id h Hwf) (bridge_uniq h Hwf) (bridge_up h Hwf)
@@ -207,7 +209,7 @@ Lemma c01_wild_discovery_mono_proved : c01_wild_discovery_mono_statement.
 Proof.
   intros cfg h Hhold Hincl Hnew Hundo Hwf Hmono. rewrite cfg_nofail_eq in Hmono.
   destruct (c_fail_at cfg) as [k|] eqn:Hf.
-  - destruct (c01_wild_disc_nofail (nofail cfg) h eq_refl Hhold Hincl Hnew Hundo Hwf) as (Hlen & Hok & Happ & _ & _ & Hre & _).
+  - destruct (c01_wild_disc_nofail (nofail cfg) h eq_refl Hhold Hincl Hnew Hundo Hwf) as (Hlen & Hok & Happ & _ & _ & Hre & _ & _).
     destruct (run_fail_c01 cfg k Hf (root_lib LNone (fk_run (nofail cfg) (fs_init LNone) h)) h (fs_init LNone) [] [])
       as ((S2 & Happ2) & Hre2 & Herr2 & Hres2).
     + cbn. lia.
@@ -217,7 +219,7 @@ Proof.
     + unfold c01_statement. split; [exact (disc_root_cut cfg k h Hf Hok S2 Happ2)|].
       split; [exact Hre2 | rewrite Hf; exact Herr2].
   - assert (Ec : nofail cfg = cfg) by (destruct cfg; cbn in Hf; subst; reflexivity). rewrite Ec in Hmono.
-    destruct (c01_wild_disc_nofail cfg h Hf Hhold Hincl Hnew Hundo Hwf) as (Hlen & Hok & _ & Hd & He & Hre & _).
+    destruct (c01_wild_disc_nofail cfg h Hf Hhold Hincl Hnew Hundo Hwf) as (Hlen & Hok & _ & Hd & He & Hre & _ & _).
     unfold c01_statement. split; [exact Hd|]. split; [exact (Hre Hmono) | exact He].
 Qed.
 
@@ -275,13 +277,43 @@ Proof.
   - intros cfg r0 m h Hm Hnew Hundo Hwf Hr0 Hab.
     assert (Hmono : lib_mono_b (cfg_nofail cfg) (fs_init m) h = true).
     { rewrite cfg_nofail_eq.
-      destruct (c01_wild_nofail (nofail cfg) r0 m h eq_refl Hm Hnew Hundo Hwf Hr0) as (_ & _ & _ & _ & _ & _ & Hmn).
+      destruct (c01_wild_nofail (nofail cfg) r0 m h eq_refl Hm Hnew Hundo Hwf Hr0) as (_ & _ & _ & _ & _ & _ & Hmn & _).
       apply Hmn. exact (above_first_parts cfg h Hab). }
     split; [|exact Hmono]. exact (c01_wild_mono_proved cfg r0 m h Hm Hnew Hundo Hwf Hr0 Hmono).
   - intros cfg h Hhold Hincl Hnew Hundo Hwf Hab.
     assert (Hmono : lib_mono_b (cfg_nofail cfg) (fs_init LNone) h = true).
     { rewrite cfg_nofail_eq.
-      destruct (c01_wild_disc_nofail (nofail cfg) h eq_refl Hhold Hincl Hnew Hundo Hwf) as (_ & _ & _ & _ & _ & _ & Hmn).
+      destruct (c01_wild_disc_nofail (nofail cfg) h eq_refl Hhold Hincl Hnew Hundo Hwf) as (_ & _ & _ & _ & _ & _ & Hmn & _).
       apply Hmn. exact (above_first_parts cfg h Hab). }
+    split; [|exact Hmono]. exact (c01_wild_discovery_mono_proved cfg h Hhold Hincl Hnew Hundo Hwf Hmono).
+Qed.
+
+(* ---- no block under the first streamable block, weakly coherent configured LIB ---- *)
+Lemma not_under_first_parts cfg h : not_under_first_b cfg h = true -> forall x, In x h -> c_first (nofail cfg) <= bnum x.
+Proof.
+  unfold not_under_first_b. intros H x Hx. rewrite forallb_forall in H. specialize (H x Hx). apply N.leb_le in H. exact H.
+Qed.
+
+Lemma weak_coh_parts r0 h : lib_weak_coh_b r0 h = true -> coh0 h r0.
+Proof.
+  unfold lib_weak_coh_b, coh0. intros H. apply orb_true_iff in H as [H|H].
+  - left. apply existsb_exists in H as (bl & Hbl & E). exists bl. split; [exact Hbl | apply N.eqb_eq; exact E].
+  - right. rewrite forallb_forall in H. intros x Hx E. specialize (H x Hx). rewrite E, N.eqb_refl in H. apply N.ltb_lt. exact H.
+Qed.
+
+Lemma c01_wild_first_le_proved : c01_wild_first_le_statement.
+Proof.
+  split.
+  - intros cfg r0 m h Hm Hnew Hundo Hwf Hr0 Hnu Hcoh.
+    assert (Hmono : lib_mono_b (cfg_nofail cfg) (fs_init m) h = true).
+    { rewrite cfg_nofail_eq.
+      destruct (c01_wild_nofail (nofail cfg) r0 m h eq_refl Hm Hnew Hundo Hwf Hr0) as (_ & _ & _ & _ & _ & _ & _ & Hmm).
+      apply Hmm; [exact (not_under_first_parts cfg h Hnu) | exact (weak_coh_parts r0 h Hcoh)]. }
+    split; [|exact Hmono]. exact (c01_wild_mono_proved cfg r0 m h Hm Hnew Hundo Hwf Hr0 Hmono).
+  - intros cfg h Hhold Hincl Hnew Hundo Hwf Hnu.
+    assert (Hmono : lib_mono_b (cfg_nofail cfg) (fs_init LNone) h = true).
+    { rewrite cfg_nofail_eq.
+      destruct (c01_wild_disc_nofail (nofail cfg) h eq_refl Hhold Hincl Hnew Hundo Hwf) as (_ & _ & _ & _ & _ & _ & _ & Hmm).
+      apply Hmm. exact (not_under_first_parts cfg h Hnu). }
     split; [|exact Hmono]. exact (c01_wild_discovery_mono_proved cfg h Hhold Hincl Hnew Hundo Hwf Hmono).
 Qed.
